@@ -99,6 +99,7 @@ def conformance(prog, cd, rep, rule="layout-conformance"):
 
 def run(prog, rep):
     cd = Codecs(prog)
+    cd.flag_errors(rep)
     rep.explanation = (
         "layout-conformance: the layout term of every writer and of every reader (22 records incl. file header and table "
         "entry) is matched position by position against an independent reference table of the TDF layout (kind, width, "
@@ -106,8 +107,12 @@ def run(prog, rep):
         "consistently on both the read and the write side is still reported; explicit-little-endian: every dtype literal "
         "and struct format carries '<'."
     )
-    endianness(prog, rep)
-    conformance(prog, cd, rep)
+    rep.attempt(endianness, prog, rep)
+    rep.attempt(conformance, prog, cd, rep)
+    from .. import primitives as PR
+    rep.attempt(PR.tdftype_primitives, prog, rep)
+    rep.attempt(PR.string_codec, prog, rep)
+    rep.attempt(PR.date_codec, prog, rep)
     rep.trusted += ["the reference table /verif/sa/reference_layout.py (validated against the BTS capture by the thorough tier's struct parser)"]
     rep.not_decided += ["golden digests of the decoded capture (an execution)", "value conventions BTS software expects beyond layout"]
     for a in cd.assumptions:
